@@ -21,9 +21,9 @@ case "$DEMO" in wasm/*)
 esac
 suite=$( (cd $WT && go test -vet=off -count=1 -skip 'TestSeededDemo$' ./... 2>&1; cd $WT/internal/app && go test -vet=off -count=1 -skip 'TestSeededDemo$' ./... 2>&1) | grep -c -E '^(FAIL|---.FAIL)')
 demo_with=$(cd $DEMODIR && env $DEMOENV go test $DEMOEXEC -vet=off -count=1 -run 'TestSeededDemo$' . 2>&1 | grep -c -E '^(FAIL|--- FAIL)')
-git stash -q
+git apply -R $D/patch.diff   # (not git stash: refs/stash is shared by all worktrees)
 demo_without=$(cd $DEMODIR && env $DEMOENV go test $DEMOEXEC -vet=off -count=1 -run 'TestSeededDemo$' . 2>&1 | grep -c -E '^(FAIL|--- FAIL)')
-git stash pop -q
+git apply $D/patch.diff
 [ -n "${WX:-}" ] && rm -f $WX
 echo "suite_failures_with_change=$suite demo_fails_with=$demo_with demo_fails_without=$demo_without"
 res=""
